@@ -14,6 +14,8 @@ spec/Discovery.tla.  Binding (real frappy.protocol.discovery.UDPListener on a Fa
                  fresh choice at every (re)start of which interfaces come up; harness/discworld.py runs the real frappy.server.Server (config file, run(), restart(),
                  shutdown(), real TCPServer/WSServer constructors) on a fake bind layer with the real UDPListener
                  thread on a threaded fake socket; a broadcast request after every operation shows who answers.
+                 The responder thread can be held before its first statement / inside its first sendto, so that
+                 restart and shutdown are also issued before it has run (two-step start in the spec).
   code -> spec : seeded random descriptions (mixed scripts, escapes, lengths around the limit, real 508) and
                  random datagram byte strings are executed, recorded and validated by Trace_Discovery (TLC),
                  which names the failing clause.
@@ -616,42 +618,72 @@ def execute_server(case):
 
     trace = []
     try:
-        for op in ['boot'] + list(case['ops']):
-            n = len(w.sockets)
-            came_up = getattr(w, op)()
-            announce, ok1 = project(w.sockets[-1].sent[:] if came_up and len(w.sockets) > n else [], False)
-            answers, ok2 = project([(raw, dest) for _, raw, dest in w.probe(sender)], True)
-            ev = {'ev': op, 'listening': sorted(idx(p) for p in w.listening), 'announce': announce,
+        ops = ['boot'] + list(case['ops'])
+        k = 0
+        while k < len(ops) or w.pending():
+            op = ops[k] if k < len(ops) else 'run'       # nothing stays held at the end
+            k += 1
+            if (op == 'run' and not w.pending()) or (op != 'run' and k > 1 and not w.thread.is_alive()):
+                continue                                 # not enabled: nothing to release / the server has ended
+            seen = {id(s_): len(s_.sent) for s_ in w.sockets}
+            if op in ('boot', 'restart'):
+                holds = case.get('holds') or []
+                hold = holds[w.starts] if w.starts < len(holds) else ''
+                getattr(w, op)(hold)
+            else:
+                getattr(w, op)()
+            new = [m for s_ in w.sockets for m in s_.sent[seen.get(id(s_), 0):]]      # sent by (re)started / released threads
+            announce, ok1 = project(new, False)
+            probed = not w.pending()
+            answers, ok2 = project([(raw, dest) for _, raw, dest in w.probe(sender)], True) if probed else ([], True)
+            ev = {'ev': op, 'listening': sorted(idx(p) for p in w.listening), 'announce': announce, 'probed': probed,
                   'answers': answers, 'ok': ok1 and ok2, 'error': w.error, 'responders': w.running_responders()}
             if op == 'boot':
                 ev['cfg'] = list(case['schemes'])
-            if op != 'shutdown':
+            if op in ('boot', 'restart'):
                 ev['up'] = sorted(case['ups'][w.starts - 1])
+                ev['held'] = bool(w.sockets) and w.sockets[-1] in w.pending() and len(w.sockets) > len(seen)
             trace.append(ev)
-            if w.error or not w.thread.is_alive():
+            if w.error or (not w.thread.is_alive() and not w.pending()):
                 break
     finally:
         w.close()
     return trace
 
 
-def server_case(schemes, ups, ops, salt):
-    return {'schemes': list(schemes), 'ups': [sorted(u) for u in ups], 'ops': list(ops), 'eq': EQ_IDS[salt % len(EQ_IDS)] or 'n',
+def server_case(schemes, ups, ops, salt, holds=()):
+    """holds: per (re)start '' | 'start' | 'send' - where the new responder thread is held until a 'run' op"""
+    return {'schemes': list(schemes), 'ups': [sorted(u) for u in ups], 'ops': list(ops), 'holds': list(holds),
+            'eq': EQ_IDS[salt % len(EQ_IDS)] or 'n',
             'descr': SRV_DESCR[salt % len(SRV_DESCR)], 'bare_main': bool(salt % 3 == 0), 'arg_main': bool(salt % 4 == 1),
             'salt': salt}
 
 
 def _replay_server(item):
     idx, beh, seed = item
-    case = server_case(beh[0]['cfg'], [s['up'] for s in beh if s['act'] != 'shutdown'], [s['act'] for s in beh[1:]],
-                       seed + idx)
+    steps = [s for s in beh if s['act'] != 'probe']
+    starts = [s for s in steps if s['act'] in ('boot', 'restart')]
+    schemes = beh[0]['cfg']
+    # a thread can only be held inside sendto when it has something to announce
+    holds = ['' if not s['held'] else
+             'send' if (seed + idx + n) % 2 and any(schemes[i - 1] == 'tcp' for i in s['up']) else 'start'
+             for n, s in enumerate(starts)]
+    case = server_case(schemes, [s['up'] for s in starts], [s['act'] for s in steps[1:]], seed + idx, holds)
     tr = execute_server(case)
     diff = None
-    for i, st in enumerate(beh):
-        ev = tr[i] if i < len(tr) else {}
-        got = {'listening': ev.get('listening'), 'answers': sorted(ev.get('answers', [[-1, -1]])),
-               'clean': ev.get('ok') and not ev.get('error')}
-        exp = {'listening': sorted(st['exp']['listening']), 'answers': sorted(st['exp']['answers']), 'clean': True}
+    k = -1
+    for i, st in enumerate(beh):        # a probe step of the behaviour is the probe part of the preceding event
+        if st['act'] != 'probe':
+            k += 1
+        ev = tr[k] if k < len(tr) else {}
+        if st['act'] == 'probe':
+            got = {'probed': ev.get('probed'), 'answers': sorted(ev.get('answers', [[-1, -1]]))}
+            exp = {'probed': True, 'answers': sorted(st['exp']['answers'])}
+        else:
+            got = {'ev': ev.get('ev'), 'listening': ev.get('listening'), 'held': ev.get('held', False),
+                   'clean': bool(ev.get('ok')) and not ev.get('error')}
+            exp = {'ev': st['act'], 'listening': sorted(st['exp']['listening']), 'held': st.get('held', False),
+                   'clean': True}
         if got != exp:
             diff = {'step': i + 1, 'expected': exp, 'observed': got}
             break
@@ -661,9 +693,13 @@ def _replay_server(item):
 def _random_server(seed):
     rnd = random.Random(seed)
     schemes = [rnd.choice(['tcp', 'tcp', 'ws']) for _ in range(rnd.randint(1, 5))]
-    ops = ['restart'] * rnd.choice([0, 1, 1, 2, 2, 4]) + (['shutdown'] if rnd.random() < 0.8 else [])
-    ups = [[i + 1 for i in range(len(schemes)) if rnd.random() < 0.7] for _ in range(1 + ops.count('restart'))]
-    case = server_case(schemes, ups, ops, rnd.randrange(1000))
+    nre = rnd.choice([0, 1, 1, 2, 2, 4])
+    ops = ['restart'] * nre + (['shutdown'] if rnd.random() < 0.8 else [])
+    ups = [[i + 1 for i in range(len(schemes)) if rnd.random() < 0.7] for _ in range(1 + nre)]
+    holds = [rnd.choice(['', '', 'start', 'send']) for _ in range(1 + nre)]
+    for _ in range(rnd.randint(0, 2)):          # releases at random points (the driver adds a final one)
+        ops.insert(rnd.randint(0, len(ops)), 'run')
+    case = server_case(schemes, ups, ops, rnd.randrange(1000), holds)
     case['eq'] = rnd.choice(EQ_IDS[:3] + ['node.' + rand_text(rnd, rnd.randint(1, 20), False)]) or 'n'
     return case, execute_server(case), None
 
@@ -912,7 +948,8 @@ def run(chk):
             for dev, inv in (('disable', 'BuildSound'), ('announce', 'AnnounceBounded'), ('loop', 'Alive'))]
     devs += [(dev, inv, ex.submit(run_tlc, 'DiscoveryServer', 'MC_DiscoveryServer_asimpl_%s.cfg' % dev, timeout=300,
                                   workers=1))
-             for dev, inv in (('restart', 'OneResponder'), ('ports', 'AnswersTrue'), ('sticky', 'AnswersTrue'))]
+             for dev, inv in (('restart', 'OneResponder'), ('ports', 'AnswersTrue'), ('sticky', 'AnswersTrue'),
+                              ('guarded', 'OneResponder'))]
     gen_srv = ex.submit(emit_behaviours, 'Gen_DiscoveryServer', 'Gen_DiscoveryServer_quick.cfg' if quick else
                         'Gen_DiscoveryServer_thorough.cfg', maximal_only=False, timeout=300)
     cfg = 'Gen_Discovery_build_quick.cfg' if quick else 'Gen_Discovery_build_thorough.cfg'
